@@ -10,6 +10,10 @@
 
 #if FAMILY == 1 || FAMILY == 2
 #   include <cds/container/treiber_stack.h>
+#elif FAMILY == 4
+#   include <cds/intrusive/treiber_stack.h>
+#   include <cds/intrusive/fcstack.h>
+#   include <boost/intrusive/slist.hpp>
 #elif FAMILY == 3
 #   include <cds/container/fcstack.h>
 #   include <cds/container/fcdeque.h>
@@ -120,6 +124,62 @@ struct DequeAdapter
     void quiescent( Result&, History const& ) { collisions = collisions_of( *d, std::integral_constant<bool, HasStat>()); }
     void post_check( Result& r, History const& ) { r.aux[1] = uint64_t( collisions ); }
     DequeSpec spec() const { return DequeSpec(); }
+};
+#endif
+
+#if FAMILY == 4
+struct is_disposer { template <class T> void operator()( T* p ) const { ++p->disposed; } };
+struct its: public cds::intrusive::treiber_stack::traits { typedef cds::intrusive::treiber_stack::base_hook< cds::opt::gc<cds::gc::HP> > hook; typedef is_disposer disposer; typedef cds::atomicity::item_counter item_counter; };
+struct its_el: public its { static constexpr const bool enable_elimination = true; typedef cds::opt::v::initialized_static_buffer<int, 1> buffer; typedef engine_zero random_engine; typedef short_delay elimination_backoff; };
+// ---- intrusive stacks: the harness owns the items ----------------------------------------------------------------------------
+// TreiberStack never calls the disposer for popped items (the caller owns them; only clear() disposes), so the lifetime rule here
+// is the caller's: an item is never reused. What is checked besides LIFO: a popped item is one that was pushed and is handed out once.
+struct ISArena {
+    struct Ent { void* p; long v; void (*del)( void* ); };
+    std::vector<Ent> all;
+    void reset() { cds_verif::regions_reset(); for ( auto& e : all ) e.del( e.p ); all.clear(); }
+    static ISArena& get() { static ISArena a; return a; }
+};
+template <class Hook> struct SItem: Hook { long v; int disposed = 0; int popped = 0; explicit SItem( long x ): v( x ) {} };
+
+template <class S, class Smr, bool FC = false>
+struct IStackAdapter
+{
+    typedef typename S::value_type item;
+    SCfg cfg; std::unique_ptr<Smr> smr; std::unique_ptr<S> s;
+    explicit IStackAdapter( SCfg c ): cfg( c ) {}
+    static const char* property() { return vh::property() == "C20" ? "C20" : "C09"; }
+    void setup() { ISArena::get().reset(); smr.reset( new Smr( cfg.nthreads + 1 )); attach(); s.reset( new S ); }
+    void teardown() { s.reset(); detach(); smr.reset(); }
+    void thread_begin( int ) { attach(); }
+    void thread_end( int ) { exit_hook( std::integral_constant<bool, FC>()); detach(); }
+    void exit_hook( std::true_type ) { s->m_FlatCombining.m_pThreadRec.reset(); }
+    void exit_hook( std::false_type ) {}
+    std::string q_err;
+    item* pop1() { item* p = s->pop(); if ( p && ++p->popped > 1 ) q_err = "pop() returned the item with value " + std::to_string( p->v ) + " a second time"; return p; }
+    void apply( int t, History& h, POp const& op )
+    {
+        switch ( op.op ) {
+        case PUSH: {
+            int i = h.call( t, PUSH, op.a );
+            item* p = new item( op.a );
+            ISArena::get().all.push_back( ISArena::Ent{ p, op.a, []( void* x ) { delete static_cast<item*>( x ); } } );
+            bool ok = s->push( *p ); h.ret( i, ok ); break;
+        }
+        case POP: { int i = h.call( t, POP ); item* p = pop1(); h.ret( i, p != nullptr, p ? p->v : 0 ); break; }
+        case EMPTY: { int i = h.call( t, EMPTY ); h.ret( i, s->empty() ? 1 : 0 ); break; }
+        case CLEAR: { int i = h.call( t, CLEAR ); s->clear(); h.ret( i, 1 ); break; }
+        default: break;
+        }
+    }
+    void drain( History& h )
+    {
+        for ( int n = 0; n < 64; ++n ) { int i = h.call( -1, POP ); item* p = pop1(); h.ret( i, p != nullptr, p ? p->v : 0 ); if ( !p ) break; }
+        int i = h.call( -1, EMPTY ); h.ret( i, s->empty());
+    }
+    void quiescent( Result&, History const& ) {}
+    void post_check( Result& r, History const& ) { if ( !q_err.empty()) r.fail( "C09:popped-twice", q_err ); }
+    LifoSpec spec() const { return LifoSpec(); }
 };
 #endif
 
@@ -245,6 +305,23 @@ int main( int argc, char** argv )
         add_stack_family<StackAdapter<ts_e1, HpHolder<ts_e1::c_nHazardPtrCount + 1>, false, true>>( "Treiber-elim1/HP", 0, 1, 2, 3, 1, 2 );
         add_stack_family<StackAdapter<ts_e2, DhpHolder, false, true>>( "Treiber-elim2-mutex/DHP", 0, 3, 2, 3, 1, 2, 2, 3, 1 );
         add_stack_family<StackAdapter<ts_ed, HpHolder<ts_ed::c_nHazardPtrCount + 1>, true, true>>( "Treiber-elim-dyn1/HP", 1, 3, 2, 3, 1, 2 );
+    }
+#elif FAMILY == 4
+    {
+        namespace ci = cds::intrusive;
+        typedef SItem< ci::treiber_stack::node<cds::gc::HP> > ts_item;
+        typedef ci::TreiberStack<cds::gc::HP, ts_item, its> its_hp;
+        typedef ci::TreiberStack<cds::gc::HP, ts_item, its_el> its_hp_el;
+        typedef SItem< ci::treiber_stack::node<cds::gc::DHP> > ts_item_d;
+        struct itsd: public ci::treiber_stack::traits { typedef ci::treiber_stack::base_hook< cds::opt::gc<cds::gc::DHP> > hook; typedef is_disposer disposer; };
+        typedef ci::TreiberStack<cds::gc::DHP, ts_item_d, itsd> its_dhp;
+        typedef SItem< boost::intrusive::slist_base_hook<> > fc_item;
+        struct ifcs_tr: public ci::fcstack::traits { typedef is_disposer disposer; };
+        typedef ci::FCStack<fc_item, boost::intrusive::slist<fc_item>, ifcs_tr> ifcs;
+        add_stack_family<IStackAdapter<its_hp, HpHolder<its_hp::c_nHazardPtrCount + 1>>>( "intrusive-Treiber/HP", 0, 2, 3, 4, 2, 3 );
+        add_stack_family<IStackAdapter<its_dhp, DhpHolder>>( "intrusive-Treiber/DHP", 0, 3, 3, 4, 2, 3 );
+        add_stack_family<IStackAdapter<its_hp_el, HpHolder<its_hp_el::c_nHazardPtrCount + 1>>>( "intrusive-Treiber-elim1/HP", 0, 2, 2, 3, 1, 2 );
+        add_stack_family<IStackAdapter<ifcs, NoSmr, true>>( "intrusive-FCStack", 0, 1, 1, 2, 1, 1, 1, 2 );
     }
 #elif FAMILY == 3
     if ( vh::wants( "C09" )) {
